@@ -403,12 +403,17 @@ class SiteTracer(Tracer):
         return app("index", base, idx)
 
     def e_assignop(self, n, env):
-        l = self.eval(n["l"], env)
+        l = self.eval(n["l"], env)          # the value read by the compound assignment (a tracked field: its current value)
         r = self.eval(n["r"], env)
         ty = n["l"].get("ty", "")
         op = n["op"].replace("Assign", "")
         if ty in INT_TYS and op in ("Add", "Sub", "Mul", "Div", "Rem", "Shl", "Shr"):
             self.site("arith", n, op, [l, r])
+        if self.track_fields:
+            l = self.eval_lhs(n["l"], env)
+            new = self.store_field(l, r, op)
+            self.events.append(Event("<assign>", [l, r] + ([new] if new is not None else []), self.loops, self.guards, n.get("sp"), n))
+            return ("tuple", [])
         self.events.append(Event("<assign>", [l, r], self.loops, self.guards, n.get("sp"), n))
         return ("tuple", [])
 
@@ -420,6 +425,7 @@ class SiteTracer(Tracer):
                 if s["k"] == "let":
                     if "init" in s:
                         v = self.eval(s["init"], env)
+                        pushed += self._flushed()
                         if "els" in s:
                             from .tables import pat_key as _pk
                             self.guards.append((app("matches", v, repr(_pk(s["pat"]))), False))
@@ -442,6 +448,7 @@ class SiteTracer(Tracer):
                     if nm_ is not None:
                         tgt = {"name": nm_}
                         r = self.eval(e["r"], env)
+                        pushed += self._flushed()
                         if e["k"] == "assignop":
                             lv = self.eval(e["l"], env)
                             op = e["op"].replace("Assign", "")
@@ -451,6 +458,7 @@ class SiteTracer(Tracer):
                         env[tgt["name"]] = r
                         continue
                     self.eval(e, env)
+                    pushed += self._flushed()
                     continue
                 if is_assert(e):
                     c = self.assert_cond(e, env)
@@ -476,12 +484,19 @@ class SiteTracer(Tracer):
                         pushed += 1
                         continue
                 v = self.eval(e, env)
+                pushed += self._flushed()
             if n.get("e") is not None:
                 return self.eval(n["e"], env)
             return ("tuple", [])
         finally:
             for _ in range(pushed):
                 self.guards.pop()
+
+    def _flushed(self):
+        """number of guards established by `?` in the statement just read (see Tracer._flush_after_stmt)"""
+        box = [0]
+        self._flush_after_stmt(box)
+        return box[0]
 
     def assert_cond(self, e, env):
         """condition asserted by an assert!-like statement, as a symbolic boolean (or None)."""
